@@ -2310,3 +2310,6 @@ mod db_test;
 
 #[cfg(test)]
 mod test_utils;
+
+#[cfg(feature = "verif")]
+mod verif_hooks;
